@@ -68,6 +68,18 @@ def run(ctx):
                 if impl["status"] != 0 or common.panicked(impl):
                     ctx.oracle_fail("archive query did not exit 0", case, detail={"status": impl["status"], "err": impl["err"][:300].decode("utf-8", "replace")})
                     continue
+                if limit and not order:
+                    # LIMIT n without ORDER BY: n rows (all of them when there are fewer), each a row of the unlimited run
+                    n_lim = int(limit.split()[1])
+                    full = common.run_cli([base.replace("@ARC@", arcw) + " into list"], cwd=snap.root, scratch=scratch, tz=snap.tz)
+                    fv = full["out"].split(b"\0")[:-1]
+                    w = len(cols)
+                    frows = [tuple(fv[i:i + w]) for i in range(0, len(fv), w)]
+                    lv = impl["out"].split(b"\0")[:-1]
+                    lrows = [tuple(lv[i:i + w]) for i in range(0, len(lv), w)]
+                    if len(lrows) != min(n_lim, len(frows)) or any(x not in frows for x in lrows):
+                        ctx.oracle_fail("LIMIT n with `archives` must return n rows of the unlimited result (all when fewer exist)", case,
+                                        detail={"limit": n_lim, "rows": len(lrows), "unlimited_rows": len(frows)})
                 if limit or order:
                     continue
                 # oracle on the unlimited, unordered run
